@@ -243,6 +243,7 @@ PROPS = {
         "assumptions": ["bundles are received ones (locally submitted ones get their sequence number from the node, C14)"],
         "units": [
             {"name": "c06.forwarding", "pkg": ROUTING, "test": "TestVerifC06Forwarding", "shards_t": 16, "shards_q": 8, "crash_is_violation": True},
+            {"name": "c06.two-nodes", "pkg": ROUTING, "test": "TestVerifC06TwoNodes", "shards_t": 16, "shards_q": 8, "crash_is_violation": True},
         ],
     },
     "C15": {
